@@ -160,12 +160,17 @@ Theorem C17_tsf_proba_is_mean_of_trees_on_features :
   forall classes (forest : list (fmember L)) x,
   forest <> [] -> NoDup classes ->
   (forall m, In m forest ->
-     NoDup (tree_classes m) /\ incl (tree_classes m) classes /     is_dist (length (tree_classes m)) (tree_row m x)) ->
-  (is_dist (length classes) (tsf_proba eqb classes forest x) /   forall j c, nth_error classes j = Some c ->
+     NoDup (tree_classes m) /\ incl (tree_classes m) classes /\
+     is_dist (length (tree_classes m)) (tree_row m x)) ->
+  (is_dist (length classes) (tsf_proba eqb classes forest x) /\
+   forall j c, nth_error classes j = Some c ->
      nth j (tsf_proba eqb classes forest x) 0 ==
-     qsum (map (fun m => prob_or0 eqb (tree_classes m) (tree_row m x) c) forest) / qlen forest) /  (forall m c, In m forest ->
-     (~ In c (tree_classes m) -> prob_or0 eqb (tree_classes m) (tree_row m x) c = 0) /     (forall i p, nth_error (tree_classes m) i = Some c -> nth_error (tree_row m x) i = Some p ->
-                  prob_or0 eqb (tree_classes m) (tree_row m x) c = p)) /  (forall x', (forall m, In m forest -> tsf_features (fst m) x = tsf_features (fst m) x') ->
+     qsum (map (fun m => prob_or0 eqb (tree_classes m) (tree_row m x) c) forest) / qlen forest) /\
+  (forall m c, In m forest ->
+     (~ In c (tree_classes m) -> prob_or0 eqb (tree_classes m) (tree_row m x) c = 0) /\
+     (forall i p, nth_error (tree_classes m) i = Some c -> nth_error (tree_row m x) i = Some p ->
+                  prob_or0 eqb (tree_classes m) (tree_row m x) c = p)) /\
+  (forall x', (forall m, In m forest -> tsf_features (fst m) x = tsf_features (fst m) x') ->
               tsf_proba eqb classes forest x = tsf_proba eqb classes forest x').
 Proof.
   intros L eqb Hspec classes forest x H1 Hnd H2. split; [|split].
@@ -192,7 +197,8 @@ Theorem C17_placed_tree_row_is_distribution :
   forall (L : Type) (eqb : L -> L -> bool), (forall a b, eqb a b = true <-> a = b) ->
   forall classes tcls row, NoDup classes -> NoDup tcls -> incl tcls classes ->
   is_dist (length tcls) row ->
-  is_dist (length classes) (place_row eqb classes tcls row) /  qsum (place_row eqb classes tcls row) == qsum row.
+  is_dist (length classes) (place_row eqb classes tcls row) /\
+  qsum (place_row eqb classes tcls row) == qsum row.
 Proof.
   intros L eqb Hspec classes tcls row H1 H2 H3 H4. split.
   - apply place_row_is_dist; assumption.
@@ -239,7 +245,8 @@ Example C17_forest_nonvacuous :
   let t1 : fmember label := ([], (cl, fun _ => [1 # 2; 1 # 4; 1 # 4])) in
   let t2 : fmember label := ([], ([LInt (-3); LInt 7], fun _ => [1 # 4; 3 # 4])) in
   let t3 : fmember label := ([], ([LInt 7; LInt 42], fun _ => [1; 0])) in
-  map Qred (tsf_proba label_eqb cl [t1; t2; t3] []) = [1 # 4; 2 # 3; 1 # 12] /  place_row label_eqb cl [LInt 7; LInt 42] [1; 0] = [0; 1; 0].
+  map Qred (tsf_proba label_eqb cl [t1; t2; t3] []) = [1 # 4; 2 # 3; 1 # 12] /\
+  place_row label_eqb cl [LInt 7; LInt 42] [1; 0] = [0; 1; 0].
 Proof. cbv zeta. split; reflexivity. Qed.
 
 Example C17_nonvacuous :
